@@ -157,15 +157,24 @@ def run(rep, tier):
         if kx not in seen:
             seen.add(kx)
             behs.append(b)
-    nb += len(behs)
+    sim = []
     for b in h.printed.get("BEH", []):
         kx = json.dumps(b, sort_keys=True)
         if kx not in seen:
             seen.add(kx)
-            behs.append(b)
-    behs = behs[:nb]
-    acts = set(e["a"] for b in behs for e in b)
+            sim.append(b)
     need = {"Rerun", "SwapItems", "SwapModules", "InsertUnrelated", "RemoveUnrelated", "AddNonBridge"}
+    # of the simulated histories (3x as many as are run) take first those that add an action no chosen history has yet
+    # (RemoveUnrelated needs an earlier InsertUnrelated, so no one-step history has it), then the rest in TLC's order
+    acts = set(e["a"] for b in behs for e in b)
+    first = []
+    for b in sim:
+        new_acts = set(e["a"] for e in b) & need - acts
+        if new_acts:
+            first.append(b)
+            acts |= new_acts
+    behs = behs + first + [b for b in sim if b not in first][:max(0, nb - len(first))]
+    acts = set(e["a"] for b in behs for e in b)
     if not need <= acts:
         raise lib.ToolError("histories never exercise %s" % (need - acts))
     base_src = render(BASE, set())
